@@ -108,6 +108,14 @@ def _split_conj(phi, depth=0):
         bs = _split_conj(b, depth + 1)
         if len(bs) > 1:
             return [z3.Or(a, x) for x in bs]
+    if z3.is_quantifier(phi) and phi.is_forall():
+        # forall x. (c => a & b)  ==  (forall x. c => a) & (forall x. c => b)
+        n = phi.num_vars()
+        vs = [z3.Const(phi.var_name(i), phi.var_sort(i)) for i in range(n)]
+        body = z3.substitute_vars(phi.body(), *reversed(vs))
+        bs = _split_conj(body, depth + 1)
+        if len(bs) > 1:
+            return [z3.ForAll(vs, b) for b in bs]
     return [phi]
 
 
